@@ -99,7 +99,7 @@ func (r *Reader) newExifBox(b *box) (inner box, err error) {
 }
 
 func readExifHeader(b *box, firstIfd ifds.IfdType, it imagetype.ImageType) (header meta.ExifHeader, err error) {
-	buf, err := b.Peek(16)
+	buf, err := b.Peek(8)
 	if err != nil {
 		err = errors.WithMessage(err, "readExifHeader")
 		return
